@@ -135,7 +135,7 @@ def ob_glue(cx):
 def obligations(tier):
     q = tier == "quick"
     p1 = dict(digits=3 if q else 5)
-    p1r = dict(digits=0, maxexp=6 if q else 15, maxrest=2 if q else 11)
+    p1r = dict(digits=0, maxexp=6 if q else 10, maxrest=2 if q else 11)      # the engine renders integers of <= 12 digits
     p2 = dict(n=4 if q else 5, m=3 if q else 5)
     p3 = dict(gn=3 if q else 4, gmax=30 if q else 60)
     to = 900 if q else 7200
